@@ -4,10 +4,12 @@
 # build tag "verif") on every invocation, then runs it.
 set -u
 cd "$(dirname "$0")"
+HERE=$(pwd)
 export GOFLAGS=-mod=mod GOPROXY=off GOSUMDB=off GOTOOLCHAIN=local
-export GOCACHE=/verif/.cache/go
+export GOCACHE=${VERIF_GOCACHE:-/verif/.cache/go}
 mkdir -p bin .work .cache
-BIN=${VERIF_BIN:-/verif/bin}
+BIN=${VERIF_BIN:-$HERE/bin}
+export VERIF_BIN="$BIN"
 build() {
   go build -tags verif -o bin/vcheck ./cmd/vcheck || { echo "BUILD FAILED" >&2; exit 2; }
 }
@@ -16,7 +18,7 @@ build() {
 build_c17() {
   mkdir -p "$BIN"
   go build -o bin/vinstr ./cmd/vinstr || { echo "BUILD FAILED (vinstr)" >&2; exit 2; }
-  (cd /repo && /verif/bin/vinstr "$BIN/../instr-$$" "${VERIF_OVERLAY:-}") >/dev/null || { echo "INSTRUMENTATION FAILED" >&2; exit 2; }
+  (cd /repo && VERIF_SRC="$HERE" "$HERE/bin/vinstr" "$BIN/../instr-$$" "${VERIF_OVERLAY:-}") >/dev/null || { echo "INSTRUMENTATION FAILED" >&2; exit 2; }
   go build -tags "verif vsched" -overlay "$BIN/../instr-$$/overlay.json" -o "$BIN/vschedcheck" ./cmd/vschedcheck || { echo "BUILD FAILED (vschedcheck)" >&2; exit 2; }
   rm -rf "$BIN/../instr-$$"
   if [ -n "${VERIF_OVERLAY:-}" ]; then
